@@ -336,7 +336,7 @@ def run_one(choices, params):
 
 
 def prepare(tier, seed):
-    return 1500 if tier == "quick" else 100000
+    return 8000 if tier == "quick" else 100000
 
 
 def params_for(i, tier, seed):
